@@ -80,7 +80,19 @@ EXPECTED["n_mid"] = ("value-of-n_mid", EXPECTED["n_leaf_a"], EXPECTED["n_leaf_b"
 EXPECTED["n_top"] = ("value-of-n_top", EXPECTED["n_mid"])
 
 
+def companion(root):
+    """A directory that belongs to the scenario root `root` but lives on another file system (None if there is none)."""
+    from vp import core
+
+    o = core.other_filesystem_dir(os.path.dirname(os.path.abspath(root)))
+    return None if o is None else os.path.join(o, os.path.basename(os.path.abspath(root)))
+
+
 def dirs(root, data="data"):
+    if data == "@otherfs":
+        # the data directory on another file system than the internal directory (a rename between the two is impossible)
+        c = companion(root)
+        return os.path.join(root, "internal"), (os.path.join(c, "data") if c else os.path.join(root, "data_otherfs"))
     return os.path.join(root, "internal"), os.path.join(root, data)
 
 
